@@ -32,6 +32,22 @@ pub fn compound_programs(thorough: bool) -> Vec<String> {
         "t[#t]",
         "t[if x then \"k\" else 1]",
         "(EI(t) :: any).k",
+        "t[-EI(-1)]",
+        "t[#EI(\"k\")]",
+        "t[not EI(nil)]",
+        "t[EI(1) + 0]",
+        "t[(EI(1))]",
+        "t[EI(nil) or 1]",
+        "t[EI(1) and \"k\"]",
+        "t[{EI(1)} and 1]",
+        "t[(function() return EI(1) end)()]",
+        "t[EI(\"k\") .. \"\"]",
+        "t[-(-EI(1))]",
+        "((EI(t))).k",
+        "((EI(t)))[1]",
+        "t[((EI(1)))]",
+        "EI(t).a[\"b\"]",
+        "t.a[(EI(\"b\"))]",
     ];
     let rhss: Vec<&str> = if thorough {
         vec!["1", "E1()", "EI(2)", "x", "t.k", "(if x then 1 else 2)", "`1`", "5 // 2", "...", "#t", "EI(t).k"]
@@ -87,6 +103,16 @@ pub fn continue_programs(thorough: bool) -> Vec<String> {
         "repeat local z = i until true\nif i == 2 then continue end\nE1(i)",
         "if i == 2 then\n  if x then continue end\nend\nE1(i)",
         "local r = (function() return i end)()\nif r == 2 then continue end\nE1(r)",
+        "local mk = function() return function() return i end end\nif i == 2 then continue end\nE1(mk()())",
+        "if i == 2 then continue end\nlocal mk = function() return function() return function() return i end end end\nE1(mk()()())",
+        "local mk = function() local function inner() return function() return i end end return inner end\nE1(mk()()())\nif i == 3 then continue end\nE1(i)",
+        "function t.fn() return i end\nif i == 2 then continue end\nE1(t.fn())",
+        "function t:meth() return self.k end\nif i == 2 then continue end\nE1(t:meth())",
+        "function gfn() return i end\nif i == 2 then continue end\nE1(gfn())",
+        "function t.a.fn2(v: number): number return v end\nif i == 2 then continue end\nE1(t.a.fn2(i))",
+        "local function lf() return i end\nif i == 2 then continue end\nE1(lf())",
+        "local o = {}\nfunction o.f() for k = 1, 2 do if k == 1 then continue end E1(\"k\", k) end end\no.f()\nif i == 2 then continue end\nE1(i)",
+        "if i == 1 then function t.late() return 1 end continue end\nE1(i)",
     ];
     for b in bodies {
         out.push(prog(&format!("local fs = {{}}\nfor i = 1, 4 do\n{}\nend\nreturn #fs", b)));
